@@ -8,7 +8,8 @@ import (
 )
 
 func TestDbg(t *testing.T) {
-	src := "import \"fmt\"\n\nfunc main() {\n\t/* b */\n\tvar a = fmt.Sprint(1)\n\t// c\n\tvar b = fmt.Sprint(2)\n\t// d1\n\t// d2\n\tvar c = 3\n\t_, _, _ = a, b, c\n}\n"
-	r := xcl.Compile(map[string]string{"bar.xgo": src}, xcl.Options{})
-	fmt.Println(r.Err, string(r.Go))
+	for _, src := range []string{"func f(x int) int\n\necho f(1)\n", "func f(x int) int\n", "func main()\n", "import \"fmt\"\nfunc g()\nfunc main() {\n\tfmt.Println(1)\n}\n"} {
+		r := xcl.Compile(map[string]string{"bar.xgo": src}, xcl.Options{})
+		fmt.Printf("%q: parse=%v err=%v panic=%v phase=%s\n%s\n", src, r.ParseErr, r.Err, r.Panic, r.Phase, r.Go)
+	}
 }
